@@ -1627,6 +1627,257 @@ variable {C : Type} [Add C] [Sub C] [Mul C]
                 u.add(key, baseline[key]['text'])
     return u
 
+class HTr:
+    """cell expressions of HessianDifferenceFunctions: real values K (or complex values C through `s : CStep K C`), vectors as functions
+    Nat -> K, points `x + a e_i + b e_j` as `shift2 x i a j b`.  `defs` holds the per-index arrays filled by earlier loops
+    (`g[i] = f(x + eee[i, :])`), inlined at their use."""
+
+    def __init__(self, loopvars, aliases, defs, hess_scale, complex_mode):
+        self.lv = loopvars            # ('i', 'j') or ('i',) at the diagonal statement
+        self.aliases = aliases        # e_i -> 'i'
+        self.defs = defs              # name -> (index var, expr ast)
+        self.scale = hess_scale       # 1 or 2: hess was initialised with scale * outer(h, h)
+        self.cx = complex_mode
+
+    def unit(self, n):
+        """`eee[i]`, `eee[i, :]`, `e_i` -> loop variable name, else None"""
+        if isinstance(n, ast.Name) and n.id in self.aliases:
+            return self.aliases[n.id]
+        if isinstance(n, ast.Subscript) and isinstance(n.value, ast.Name) and n.value.id == 'eee':
+            sl = n.slice
+            if isinstance(sl, ast.Tuple) and len(sl.elts) == 2 and isinstance(sl.elts[1], ast.Slice) and isinstance(sl.elts[0], ast.Name):
+                return sl.elts[0].id
+            if isinstance(sl, ast.Name):
+                return sl.id
+        return None
+
+    def point(self, n, other):
+        """a point expression -> lean `shift2 ..`; coefficients per loop variable"""
+        coef = {}
+
+        def add(term, sign):
+            if isinstance(term, ast.BinOp) and isinstance(term.op, (ast.Add, ast.Sub)):
+                add(term.left, sign)
+                add(term.right, sign if isinstance(term.op, ast.Add) else -sign)
+                return
+            if isinstance(term, ast.Name) and term.id == 'x':
+                if sign != 1 or 'x' in coef:
+                    raise Unsupported('point expression ' + ast.unparse(n))
+                coef['x'] = True
+                return
+            mult, cx = None, False
+            u = self.unit(term)
+            if u is None and isinstance(term, ast.BinOp) and isinstance(term.op, ast.Mult) and isinstance(term.left, ast.Constant):
+                u = self.unit(term.right)
+                if isinstance(term.left.value, complex):
+                    if term.left.value != 1j:
+                        raise Unsupported('complex factor ' + ast.unparse(term))
+                    cx = True
+                else:
+                    mult = term.left.value
+                    if float(mult) != int(mult) or not 1 <= int(mult) <= 16:
+                        raise Unsupported('factor ' + ast.unparse(term))
+                    mult = int(mult)
+            if u is None or u in coef:
+                raise Unsupported('point term ' + ast.unparse(term))
+            coef[u] = (sign, mult, cx)
+        add(n, 1)
+        if 'x' not in coef:
+            raise Unsupported('point without x: ' + ast.unparse(n))
+        idx = [k for k in coef if k != 'x']
+        if not idx or len(idx) > 2 or any(k not in self.lv for k in idx):
+            raise Unsupported('point indices ' + ast.unparse(n))
+
+        def amount(k):
+            sign, mult, cx = coef[k]
+            a = 'h %s' % k
+            if mult is not None:
+                a = '%d * %s' % (mult, a)
+            if self.cx:
+                a = 's.ofReal (%s)' % (a if sign == 1 else '-(%s)' % a)
+                if cx:
+                    if sign != 1:
+                        raise Unsupported('negative imaginary increment')
+                    a = 's.i * s.ofReal (h %s)' % k if mult is None else 's.i * ' + a
+                return '(%s)' % a
+            if cx:
+                raise Unsupported('complex increment in a real-step rule')
+            return '(%s)' % a if sign == 1 else '(-(%s))' % a
+        # order: as written for two indices; a single index is paired with the other loop variable (zero increment)
+        if len(idx) == 2:
+            order = [k for k in self.lv if k in idx]
+            a, b = order[0], order[1]
+            return 'shift2 %s %s %s %s %s' % ('xc' if self.cx else 'x', a, amount(a), b, amount(b))
+        a = idx[0]
+        zero = '(s.ofReal 0)' if self.cx else '0'
+        return 'shift2 %s %s %s %s %s' % ('xc' if self.cx else 'x', a, amount(a), other.get(a, a), zero)
+
+    def e(self, n, other):
+        """other: for a single-index point, the loop variable that takes the zero increment ({'i': 'j', 'j': 'i'})"""
+        if isinstance(n, ast.Constant) and isinstance(n.value, (int, float)) and not isinstance(n.value, bool):
+            if float(n.value) != int(n.value) or not 0 <= int(n.value) <= 64:
+                raise Unsupported('literal %r' % (n.value,))
+            return str(int(n.value))
+        if isinstance(n, ast.Name) and n.id == 'f_x':
+            return 'f_x'
+        if isinstance(n, ast.Call) and isinstance(n.func, ast.Name) and n.func.id == 'f' and len(n.args) == 1:
+            return 'f (%s)' % self.point(n.args[0], other)
+        if isinstance(n, ast.Attribute) and n.attr == 'imag' and self.cx:
+            return 's.im (%s)' % self.e(n.value, other)
+        if isinstance(n, ast.Subscript) and isinstance(n.value, ast.Name):
+            nm = n.value.id
+            if nm == 'hess':
+                sl = n.slice
+                if isinstance(sl, ast.Tuple) and len(sl.elts) == 2 and all(isinstance(t, ast.Name) and t.id in self.lv for t in sl.elts):
+                    a, b = sl.elts[0].id, sl.elts[1].id
+                    prod = '(h %s * h %s)' % (a, b)
+                    return prod if self.scale == 1 else '(%d * %s)' % (self.scale, prod)
+                raise Unsupported('hess index ' + ast.unparse(n))
+            if nm in self.defs and isinstance(n.slice, ast.Name) and n.slice.id in self.lv:
+                var, expr = self.defs[nm]
+                # inline with the definition's index renamed to the use's index
+
+                class Ren(ast.NodeTransformer):
+                    def visit_Name(self, node, var=var, to=n.slice.id):
+                        return ast.copy_location(ast.Name(id=to, ctx=node.ctx), node) if node.id == var else node
+                import copy
+                return self.e(Ren().visit(copy.deepcopy(expr)), other)
+        if isinstance(n, ast.BinOp) and isinstance(n.op, (ast.Add, ast.Sub, ast.Mult, ast.Div)):
+            op = {ast.Add: '+', ast.Sub: '-', ast.Mult: '*', ast.Div: '/'}[type(n.op)]
+            a, b = self.e(n.left, other), self.e(n.right, other)
+            # Lean's + - are left associative like Python's: parenthesise only the right operand when it is compound
+            right_atom = isinstance(n.right, (ast.Constant, ast.Name)) or isinstance(n.right, (ast.Call, ast.Subscript, ast.Attribute))
+            left_needs = isinstance(n.left, ast.BinOp) and isinstance(n.op, (ast.Mult, ast.Div)) and isinstance(n.left.op, (ast.Add, ast.Sub))
+            if isinstance(n.right, ast.Subscript) and b.startswith('('):
+                right_atom = True
+            return '%s %s %s' % ('(%s)' % a if left_needs else a, op, b if right_atom else '(%s)' % b)
+        raise Unsupported('Hessian cell expression ' + ast.unparse(n)[:80])
+
+
+def gen_hesscells(status, baseline):
+    u = Unit('HessCells.lean', '''/- GENERATED by translator/py2lean.py from src/numdifftools/finite_difference.py (class HessianDifferenceFunctions) — do not edit -/
+import Ndt.Gen.DiffFuns
+namespace Ndt.Gen
+/-- `x + a e_i + b e_j` (vectors are functions `Nat -> K`) -/
+def shift2 {K : Type} [Add K] [OfNat K 0] (x : Nat → K) (i : Nat) (a : K) (j : Nat) (b : K) : Nat → K :=
+  fun k => x k + (if k = i then a else 0) + (if k = j then b else 0)
+variable {K : Type} [Add K] [Sub K] [Mul K] [Div K] [Neg K] [OfNat K 0] [OfNat K 1] [OfNat K 2] [OfNat K 4]
+''')
+    try:
+        mod = parse('finite_difference.py')
+        fs = funcs_of(find_class(mod, 'HessianDifferenceFunctions'))
+        err = None
+    except (Unsupported, OSError, SyntaxError) as ex:
+        fs, err = None, str(ex)
+    for nm in ('_forward', '_central_even', '_central2', '_complex_even', '_backward'):
+        key = 'HessCells.' + nm
+        try:
+            if fs is None:
+                raise Unsupported(err)
+            if nm not in fs:
+                raise Unsupported('function not found')
+            fn = fs[nm]
+            if [a.arg for a in fn.args.args] != ['f', 'f_x', 'x', 'h']:
+                raise Unsupported('signature')
+            body = [st for st in fn.body if not (isinstance(st, ast.Expr) and isinstance(st.value, ast.Constant))]
+            if nm == '_backward':
+                if len(body) != 1 or flat(ast.unparse(body[0])) != 'return HessianDifferenceFunctions._forward(f, f_x, x, -h)':
+                    raise Unsupported('_backward is no longer _forward with -h')
+                u.add(key, '/-- `return HessianDifferenceFunctions._forward(f, f_x, x, -h)` -/\n'
+                           'def HessianDifferenceFunctions._backward_cell (f : (Nat → K) → K) (f_x : K) (x h : Nat → K) (i j : Nat) : K :=\n'
+                           '  HessianDifferenceFunctions._forward_cell f f_x x (fun k => -(h k)) i j')
+                status[key] = {'ok': True}
+                continue
+            complex_mode = nm == '_complex_even'
+            scale, defs, main = None, {}, None
+            for st in body:
+                src = flat(ast.unparse(st))
+                if src in ('n = len(x)', 'eee = np.diag(h)', 'dtype = np.result_type(f_x, float)', 'return hess') or \
+                        src.startswith(('f_xpe = np.empty(', 'f_xme = np.empty(', 'g = np.empty(', 'hess = np.empty(')):
+                    continue
+                if src == 'hess = np.outer(h, h)' or src == 'np.outer(h, h, out=hess)':
+                    scale = 1
+                    continue
+                if src in ('hess = 2.0 * np.outer(h, h)',):
+                    scale = 2
+                    continue
+                if isinstance(st, ast.For) and isinstance(st.target, ast.Name) and ast.unparse(st.iter) == 'range(n)':
+                    if all(isinstance(b, ast.Assign) and isinstance(b.targets[0], ast.Subscript) and isinstance(b.targets[0].value, ast.Name)
+                           and b.targets[0].value.id != 'hess' for b in st.body):
+                        for b in st.body:       # per-index arrays: name[i] = expr
+                            if not (isinstance(b.targets[0].slice, ast.Name) and b.targets[0].slice.id == st.target.id):
+                                raise Unsupported('array fill ' + ast.unparse(b))
+                            defs[b.targets[0].value.id] = (st.target.id, b.value)
+                        continue
+                    if main is not None:
+                        raise Unsupported('two main loops')
+                    main = st
+                    continue
+                raise Unsupported('statement ' + src[:80])
+            if main is None or scale is None:
+                raise Unsupported('main loop / hess initialisation not found')
+            iv = main.target.id
+            aliases, diag, inner = {}, None, None
+            for b in main.body:
+                if isinstance(b, ast.Assign) and isinstance(b.targets[0], ast.Name) and isinstance(b.value, ast.Subscript):
+                    t = HTr((iv,), {}, {}, scale, complex_mode).unit(b.value)
+                    if t != iv:
+                        raise Unsupported('alias ' + ast.unparse(b))
+                    aliases[b.targets[0].id] = iv
+                elif isinstance(b, ast.Assign) and flat(ast.unparse(b.targets[0])) == 'hess[%s, %s]' % (iv, iv):
+                    diag = b.value
+                elif isinstance(b, ast.For) and isinstance(b.target, ast.Name):
+                    inner = b
+                else:
+                    raise Unsupported('main loop statement ' + ast.unparse(b)[:80])
+            if inner is None:
+                raise Unsupported('inner loop not found')
+            jv = inner.target.id
+            rng_ = ast.unparse(inner.iter)
+            if rng_ not in ('range(%s, n)' % iv, 'range(%s + 1, n)' % iv):
+                raise Unsupported('inner range ' + rng_)
+            if (rng_ == 'range(%s + 1, n)' % iv) != (diag is not None):
+                raise Unsupported('diagonal statement and inner range do not fit')
+            off = None
+            for b in inner.body:
+                if isinstance(b, ast.Assign) and isinstance(b.targets[0], ast.Name) and isinstance(b.value, ast.Subscript):
+                    t = HTr((iv, jv), {}, {}, scale, complex_mode).unit(b.value)
+                    if t != jv:
+                        raise Unsupported('alias ' + ast.unparse(b))
+                    aliases[b.targets[0].id] = jv
+                elif isinstance(b, ast.Assign) and flat(ast.unparse(b.targets[0])) == 'hess[%s, %s]' % (iv, jv):
+                    off = b.value
+                elif flat(ast.unparse(b)) == 'hess[%s, %s] = hess[%s, %s]' % (jv, iv, iv, jv):
+                    pass
+                elif isinstance(b, ast.Assign) and flat(ast.unparse(b.targets[0])) == 'zph':
+                    raise Unsupported('bicomplex cell')
+                else:
+                    raise Unsupported('inner loop statement ' + ast.unparse(b)[:80])
+            if off is None:
+                raise Unsupported('cell assignment not found')
+            if (iv, jv) != ('i', 'j'):
+                raise Unsupported('loop variables are not i, j')
+            tr2 = HTr(('i', 'j'), aliases, defs, scale, complex_mode)
+            off_l = tr2.e(off, {'i': 'j', 'j': 'i'})
+            if diag is not None:
+                diag_l = HTr(('i',), {k: v for k, v in aliases.items() if v == 'i'}, defs, scale, complex_mode).e(diag, {'i': 'i'})
+                text = 'if i = j then %s\n  else %s' % (diag_l, off_l)
+            else:
+                text = off_l
+            if complex_mode:
+                sig = '{C : Type} [Add C] [Sub C] [Mul C] [OfNat C 0] (s : CStep K C) (f : (Nat → C) → C) (x h : Nat → K) (i j : Nat) : K'
+                text = 'let xc : Nat → C := fun k => s.ofReal (x k)\n  ' + text
+            else:
+                sig = '(f : (Nat → K) → K) (f_x : K) (x h : Nat → K) (i j : Nat) : K'
+            u.add(key, '/-- cell (i, j), i <= j, of `HessianDifferenceFunctions.%s` -/\ndef HessianDifferenceFunctions.%s_cell %s :=\n  %s'
+                  % (nm, nm, sig, text))
+            status[key] = {'ok': True}
+        except (Unsupported, IndexError, AttributeError) as ex:
+            status[key] = {'ok': False, 'error': str(ex)}
+            if key in baseline:
+                u.add(key, baseline[key]['text'])
+    return u
+
 
 def gen_ndscipy(status, baseline):
     u = Unit('NdScipy.lean', '''/- GENERATED by translator/py2lean.py from src/numdifftools/nd_scipy.py — do not edit -/
@@ -1725,7 +1976,7 @@ def main(update_baseline=False):
     status = {}
     units = []
     del EXTRA_UNITS[:]
-    for gen in (gen_logrule, gen_steps, gen_guards, gen_bicomplex, gen_dea3, gen_richerr, gen_difffuns, gen_ndscipy):
+    for gen in (gen_logrule, gen_steps, gen_guards, gen_bicomplex, gen_dea3, gen_richerr, gen_difffuns, gen_hesscells, gen_ndscipy):
         try:
             units.append(gen(status, baseline))
         except Exception as ex:     # whole-unit failure (class missing, syntax error ...)
